@@ -14,6 +14,8 @@ def run(ctx):
     # reporters' per-day chunks validated step by step against Trace_Reporters.tla
     common.trace_layer(ctx, "reporters-trace", "Trace_Reporters.tla", "Trace_Reporters.cfg", "reporters", "reporters-trace-rejected",
                        {"logs": 150 if q else 4000}, "cmd/hranoprovod-cli")
+    if ctx.tier == "thorough":
+        vlib.vacuity_check(ctx, "MC_Reporters.tla", "MC_Reporters_quick.cfg", expect_zero=())
     return vlib.finish(
         ctx, "model_checking",
         rule="Reporters.tla: every first day of <= 3 entries over 3 foods (one with two elements of opposite sign, one defined empty, one "
